@@ -7,6 +7,9 @@ import Gv.Model.Fmt.Partition
 import Gv.Proofs.PartitionRange
 import Gv.Proofs.StockholmOutcome
 import Gv.Proofs.PhylipOutcome
+import Gv.Proofs.ClustalOutcome
+import Gv.Proofs.NexusOutcome
+import Gv.Proofs.PartitionOutcome
 /-!
 C03 — parsers terminate on every input with an error or a well-formed result.
 
@@ -375,5 +378,81 @@ theorem phylip_multi_wellformed (af : Bool) (o : POpts) : ∀ (fuel : Nat) (s : 
         | inr hx => subst hx; exact parseOne_ok af o _ s' x h
       | eos => simpa using hacc
       | slow => simp
+
+/-! ## Clustal -/
+
+open Gv.Proofs.ClustalOutcome in
+/-- **Clustal (with or without the row-index repair), all byte strings and options**: a success is a
+non-empty rectangular alignment with pairwise distinct names.
+Missing for the full C03 statement: "at least one column" (true, but it needs the loop invariant that
+every sequence token is non-empty — open), and that the outcome is never `panic` / `hang` (false for the
+unrepaired code: `clustal_counterexample_panic`; open for the repaired parser). -/
+theorem clustal_outcome_partial (c : Bool) (o : POpts) (bs : List Byte) :
+    match Clustal.parse c o bs with
+    | .ok a => a.rows ≠ [] ∧ (∀ r ∈ a.rows, (r.2.length : Int) = a.length) ∧
+               Spec.Fmt.distinct (a.rows.map (·.1)) = true
+    | _ => True := by
+  cases h : Clustal.parse c o bs with
+  | ok a =>
+    obtain ⟨rows, hb⟩ := parse_ok c o bs a h
+    exact build_ok o rows a hb
+  | _ => trivial
+
+/-! ## Nexus -/
+
+open Gv.Proofs.NexusOutcome in
+/-- **Nexus (every combination of the repairs, all byte strings and options)**: a success is a non-empty
+rectangular alignment with pairwise distinct names, and — once rows without residues are rejected
+(`rejectsEmptyRows`, commit ccba43a) — with at least one column, i.e. well formed.
+Missing for the full C03 statement: the outcome is never `panic` / `hang` (false without the comment
+repair: `nexus_counterexample_hang`; open for the repaired parser: fuel sufficiency of the command
+loops), and consistency with the declared `ntax` / `nchar` (checked by the oracle on every run). -/
+theorem nexus_outcome_partial (f : Nexus.Facts) (o : POpts) (bs : List Byte) :
+    match Nexus.parse f o bs with
+    | .ok a => a.rows ≠ [] ∧ (∀ r ∈ a.rows, (r.2.length : Int) = a.length) ∧
+               Spec.Fmt.distinct (a.rows.map (·.1)) = true ∧
+               (f.rejectsEmptyRows = true → Spec.Fmt.wellFormed a.length a.rows = true)
+    | _ => True := by
+  cases h : Nexus.parse f o bs with
+  | ok a =>
+    obtain ⟨top, hb⟩ := parse_ok f o bs a h
+    obtain ⟨h1, h2, h3, h4⟩ := build_ok f o top a hb
+    refine ⟨h1, h2, h3, fun hf => ?_⟩
+    have hpos := h4 hf
+    unfold Spec.Fmt.wellFormed
+    have e1 : a.rows.isEmpty = false := by
+      cases hr : a.rows with
+      | nil => exact absurd hr h1
+      | cons _ _ => rfl
+    have e3 : (a.rows.all fun r => (r.2.length : Int) == a.length) = true := by
+      simp only [List.all_eq_true, beq_iff_eq]; exact h2
+    simp [e1, hpos, e3, h3]
+  | _ => trivial
+
+/-! ## Partition parser: the full C03 statement for the code with the `AddRange` guard -/
+
+open Gv.Proofs.PartitionOutcome Gv.Proofs.PartitionRange in
+/-- **Partition parser, all byte strings, every declared length below 2^63** (with the overflow guard of
+`AddRange`, commit df0dd4f; `r` = whether `start > end` is rejected as well, commit c4827bc): the outcome
+is an explicit error or a partition map over exactly the declared length whose entries are −1 or the
+index of a declared partition — never a panic, never a hang (the fuel of every loop of the model is
+proved sufficient), never an exit. -/
+theorem partition_outcome (r : Bool) (len : Nat) (hlen : (len : Int) < 9223372036854775808) (bs : List Byte) :
+    match Partition.parse ⟨r, true⟩ len bs with
+    | .ok ps => ps.length = len ∧ ps.parts.length = len ∧
+                ∀ p ∈ ps.parts, -1 ≤ p ∧ p < (ps.names.length : Int)
+    | .error => True
+    | .exit | .panic | .hang => False := by
+  have h := parse_acc ⟨r, true⟩ rfl len hlen bs
+  revert h
+  cases Partition.parse ⟨r, true⟩ len bs with
+  | ok ps =>
+    simp only [AccL]
+    intro ⟨⟨h1, _, h3⟩, hl⟩
+    exact ⟨hl, by rw [h1, hl], h3⟩
+  | error => simp [AccL]
+  | exit => simp [AccL]
+  | panic => simp [AccL]
+  | hang => simp [AccL]
 
 end Gv.Props.C03
